@@ -6,8 +6,18 @@ from pyvc import props as P
 ROOT = os.path.dirname(os.path.dirname(os.path.abspath(__file__)))
 allp = [json.loads(l) for l in open(os.path.join(ROOT, "properties.jsonl"))]
 checks = []
+GENERIC = ("Every obligation (postconditions, exceptional postconditions, loop invariants, callee preconditions, frames, vacuity guards) "
+           "generated from the current source of the listed functions against sidecar contracts is discharged by z3/cvc5 for all inputs "
+           "and iteration counts; the property is a lemma over those contracts.")
 for pid in sorted(P.PROPS):
     sp = P.PROPS[pid]
+    text = GENERIC if sp.get("level", "proof") == "proof" else (
+        "PARTLY deductive. " + sp.get("explanation", "") + " For the functions under contract: " + GENERIC[0].lower() + GENERIC[1:])
+    ba = sp.get("bounded_always", {})
+    if ba:
+        text += (" Bounded (labelled bounded, run on every check, never counted as proved): " +
+                 "; ".join(f"{q} via replay/{d['driver']}" for q, d in sorted(ba.items())) + ".")
+    sp = dict(sp, level_text=text)
     checks.append({
         "property_id": pid,
         "quick_cmd": f"./check {pid} --tier quick",
@@ -20,12 +30,13 @@ for pid in sorted(P.PROPS):
             "text": sp.get("level_text", "Every obligation (postconditions, exceptional postconditions, loop invariants, callee "
                     "preconditions, frames) generated from the current source of the listed functions against sidecar contracts "
                     "is discharged by z3/cvc5 for all inputs and iteration counts; the property is a lemma over those contracts."),
-            "design_ref": sp.get("design_ref", "DESIGN.md 6/" + pid),
+            "design_ref": sp.get("design_ref", "DESIGN.md 0.10 (as built) and 6/" + pid + " (plan)"),
         },
         "level_note": sp.get("level_note", "Trusted: pyvc's encoding of Python (DESIGN 2.3), the ASSUMED contracts on "
                      "dependencies listed in the evidence file, z3/cvc5, hash injectivity where used."),
         "technique": sp.get("technique", "contract-based deductive verification: VCs generated from the real AST against sidecar "
-                     "contracts, discharged by z3/cvc5; counterexamples replayed natively"),
+                     "contracts, discharged by z3/cvc5; counterexamples replayed natively"
+                     + ("; plus a bounded native explorer for the parts no per-call contract can decide (labelled bounded)" if ba else "")),
     })
 na = []
 for p in allp:
